@@ -22,7 +22,7 @@ from mc import core, e1_history
 
 PROPERTY = 'C12'
 LEVEL = 'model_checking'
-RULE = ('BFS over histories of {connect, send 1 byte, send 5 bytes, shutdown(WR), close, server write, server write of 1 MiB while the '
+RULE = ('BFS over histories of {connect, send 1 byte, send 5 bytes, send 5 / 4096 / 20480 bytes and close at once, send 8192 bytes and half-close, shutdown(WR), close, server write, server write of 1 MiB while the '
         'peer does not read, server close, and the same server-side write/close issued late, after the disconnect} over two '
         'connections to a real UNIXServer, replayed under Select, Poll and EPoll; plus client histories {peer sends, peer closes, '
         'client writes, client closes} for a real UNIXClient; plus a TCP family over a real TCPServer on the loopback interface '
@@ -143,7 +143,8 @@ class World:
     pass
 
 
-OPS = ['connect', 'send1', 'send5', 'sendbig', 'shutwr', 'pclose', 'swrite', 'sfill', 'sclose', 'sendclose5', 'sendclose4096', 'sendshut8192']
+OPS = ['connect', 'send1', 'send5', 'sendbig', 'shutwr', 'pclose', 'swrite', 'sfill', 'sclose', 'sendclose5', 'sendclose4096', 'sendshut8192',
+       'sendclose20480']     # (five read buffers: more than the iterations that follow an operation can read)
 EXACT = bytes(range(256)) * 16            # 4096 bytes: exactly one read buffer
 BIG = bytes(range(256)) * 20 + b'tail'     # 5124 bytes: more than one read buffer
 
@@ -171,7 +172,7 @@ class ConnModel(e1_history.Model):
                 s['phase'], s['peer_open'] = 'open', True
             elif op == 'sendbig':
                 s['big'] = True
-            elif op in ('sendclose5', 'sendclose4096'):
+            elif op in ('sendclose5', 'sendclose4096', 'sendclose20480'):
                 # the peer sends and closes before the server gets to read: data and end-of-stream are waiting together
                 s['peer_open'] = False
                 s['ended'] = True
@@ -212,7 +213,7 @@ class ConnModel(e1_history.Model):
                     ok = s['phase'] == 'open' and s['peer_open'] and not s['shut']
                 elif op == 'sendbig':
                     ok = s['phase'] == 'open' and s['peer_open'] and not s['shut'] and not s['big']
-                elif op in ('sendclose5', 'sendclose4096', 'sendshut8192'):
+                elif op in ('sendclose5', 'sendclose4096', 'sendshut8192', 'sendclose20480'):
                     # (also after the server asked for the close: with output still buffered that close is deferred)
                     ok = s['phase'] == 'open' and s['peer_open'] and not s['shut']
                 elif op == 'shutwr':
@@ -270,8 +271,8 @@ class ConnModel(e1_history.Model):
                 sub.sent[c] += data
             except OSError:
                 pass            # the server has already closed: nothing was sent
-        elif name in ('sendclose5', 'sendclose4096', 'sendshut8192'):
-            data = b'hello' if name == 'sendclose5' else (EXACT if name == 'sendclose4096' else EXACT + EXACT)
+        elif name in ('sendclose5', 'sendclose4096', 'sendshut8192', 'sendclose20480'):
+            data = b'hello' if name == 'sendclose5' else (EXACT if name == 'sendclose4096' else EXACT * 5 if name == 'sendclose20480' else EXACT + EXACT)
             try:
                 p.send(data)
                 sub.sent[c] += data
@@ -309,7 +310,13 @@ class ConnModel(e1_history.Model):
         bad = [('automaton:never-accepted', t) for t in w.never_accepted]
         streams = []
         for sub in w.subs:
-            # everything settles: a few more iterations, then the tables are inspected
+            # everything settles (a large payload takes one iteration per read buffer), then a few more iterations in which nothing
+            # may happen any more, then the tables are inspected
+            for _ in range(12):
+                n = len(sub.log)
+                sub.steps(1)
+                if len(sub.log) == n:
+                    break
             before = len(sub.log)
             sub.steps(3)
             per = {}
